@@ -98,6 +98,11 @@ def gen_cases(ctx):
             cases.append("pool %d %s D" % (n, " ".join(["b"] * n)))
             cases.append("pool %d %s D" % (n, " ".join(with_pauses(ctx, ["b"] * (2 * n) + ["i"] * 3, 3))))
             cases.append("pool %d %s D" % (n, " ".join(["i"] * maxjobs)))
+            # a backlog far beyond any small queue bound at the moment of the drop; and drops issued by the unwinding of a
+            # panicking owner (Drop runs while thread::panicking()): both must drain like any other drop
+            cases.append("pool %d %s D" % (n, " ".join(["s1000"] * 150)))
+            cases.append("pool %d %s U" % (n, " ".join(["s2000"] * 6)))
+            cases.append("pool %d %s U" % (n, " ".join(["i"] * 5 + ["s3000"] * 3)))
             if n >= 2:
                 cases.append("pool %d w3 i i i D" % n)
                 cases.append("pool %d i w%d %s D" % (n, min(maxjobs - 2, 10), " ".join(["i"] * (maxjobs - 2))))
